@@ -5,6 +5,7 @@ import (
 	"encoding/json"
 	"fmt"
 	"net/http"
+	"strconv"
 	"strings"
 
 	"github.com/tigerwill90/fox"
@@ -426,6 +427,60 @@ func converse() []*mc.Scenario {
 	return out
 }
 
+// crowd: n requests are in flight while a writer commits and then holds a new write transaction open for ever;
+// only then do their handlers return. To keep the schedule tree small, n-1 of them are nested on one thread (each
+// handler serves the next request before returning, so they finish one after the other), the last one runs on a
+// thread of its own. Every request must complete, whatever the interleaving, without touching the writer lock.
+func crowd(n int) *mc.Scenario {
+	return &mc.Scenario{
+		Name: fmt.Sprintf("crowd | %d requests outliving their tree", n),
+		Build: func() *mc.Instance {
+			f, _ := fox.New()
+			gate, all := &vs.Gate{}, &vs.Gate{}
+			entered := 0
+			f.Handle("GET", "/park/{id}", func(c fox.Context) {
+				i, _ := strconv.Atoi(c.Param("id"))
+				if entered++; entered == n {
+					all.Open()
+				}
+				if i+1 < n-1 {
+					f.ServeHTTP(fx.NewRW(), fx.Req("GET", "", "/park/"+strconv.Itoa(i+1)))
+				} else {
+					gate.Park()
+				}
+				c.Writer().WriteHeader(204)
+			})
+			bodies := []func(){func() { f.ServeHTTP(fx.NewRW(), fx.Req("GET", "", "/park/0")) }}
+			bodies = append(bodies, func() { f.ServeHTTP(fx.NewRW(), fx.Req("GET", "", "/park/"+strconv.Itoa(n-1))) })
+			bodies = append(bodies, func() {
+				all.Park()
+				f.Handle("GET", "/committed", fx.VerHandler(3))
+				t := f.Txn(true)
+				t.Handle("GET", "/uncommitted", fx.VerHandler(5))
+				gate.Open()
+			})
+			return &mc.Instance{
+				Bodies: bodies,
+				Check: func(x *mc.Exec) (string, string, string) {
+					for t := 0; t < 2; t++ {
+						if x.S.Deadlock || !x.S.Finished(t) {
+							return "blocked", "reader-blocked", fmt.Sprintf("with %d requests in flight across a commit, reader thread %d cannot complete while a write transaction is held open: %s", n, t, x.S.DeadInfo)
+						}
+						if pv, stk := x.S.PanicOf(t); pv != nil {
+							return "panic", "panic", fmt.Sprintf("reader thread %d panicked: %v\n%s", t, pv, mc.NormStack(stk, 10))
+						}
+						pt := x.S.PerThread[t]
+						if locks := pt[vs.OpLock] + pt[vs.OpRLock] + pt[vs.OpTryLock] + pt[vs.OpUnlock] + pt[vs.OpRUnlock]; locks > 0 {
+							return "locks", "reader-takes-lock", fmt.Sprintf("a request in flight across a commit performed %d mutex operations", locks)
+						}
+					}
+					return "ok", "", ""
+				},
+			}
+		},
+	}
+}
+
 func all() []*mc.Scenario {
 	var scs []*mc.Scenario
 	for pi := range profiles {
@@ -436,6 +491,7 @@ func all() []*mc.Scenario {
 		}
 	}
 	scs = append(scs, converse()...)
+	scs = append(scs, crowd(18), crowd(34))
 	return append(scs, twoReaders()...)
 }
 
@@ -461,7 +517,13 @@ func init() {
 					cc := *c
 					cc.NShards = 1
 					bound := -1
-					if strings.HasPrefix(sc.Name, "commit-then-park") || strings.HasPrefix(sc.Name, "two-readers") {
+					maxExecs := int64(500000)
+					if strings.HasPrefix(sc.Name, "crowd") {
+						bound = 1
+						if !c.Quick() {
+							bound, maxExecs = 2, 2000000
+						}
+					} else if strings.HasPrefix(sc.Name, "commit-then-park") || strings.HasPrefix(sc.Name, "two-readers") {
 						bound = 2
 						if !c.Quick() {
 							bound = 6
@@ -469,7 +531,7 @@ func init() {
 					}
 					// MaxExecs: the largest schedule tree on the unchanged code has under 10^4 executions; a tree 50x that size is
 					// a runaway (e.g. a busy-wait loop under unbounded preemption) and is reported as not exhaustive
-					mc.Explore(&cc, r, "product", sc, mc.ExploreOpts{Bound: bound, MaxExecs: 500000})
+					mc.Explore(&cc, r, "product", sc, mc.ExploreOpts{Bound: bound, MaxExecs: maxExecs})
 				}
 				mc.CountNontrivial(r)
 				r.Bounds = map[string]string{"product": fmt.Sprintf("%d profiles x %d writer stages x %d read entry points + %d converse scenarios (unbounded interleavings) + %d two-reader scenarios (pairs of %d entry points x 2 profiles against a parked writer); commit-then-park and two-reader scenarios: preemption bound 2 (quick) / 6 (thorough)", len(profiles), len(stages), len(entries), len(converse()), len(twoReaders()), len(pairEntries))}
